@@ -4,4 +4,4 @@ From AIT Require Import Base.Vio Base.Qx Base.Mdp C01.Model C01.Spec.
 Extraction "model.ml" vio_kit maxl argmax wf_mdpb T_op T_pi
   g_of_tables dense_of_g sparse_of_g g_of_mdp vi_run vi_run_g pe_run pe_run_g use_tolerance
   dist closeb residual_leb residual_pi_leb check_mdp_solution check_dp check_dp_pi check_iter check_iter_pi
-  dp_red dp_pi_red iterT_red iterTpi_red cross_bound check_cross lp_post lp_post_g lp_problem_of_mdp pi_run pi_run_g greedy_matrix sparse_accepts.
+  dp_red dp_pi_red iterT_red iterTpi_red cross_bound check_cross lp_post lp_post_g lp_problem_of_mdp pi_run pi_run_g greedy_matrix sparse_accepts obj_set_t obj_set_r obj_set_d sobj_set_t sobj_set_r.
